@@ -60,6 +60,7 @@ Definition pPayload : P payload :=
   | 7 => pret PSubData
   | 8 => pret PBindData
   | 9 => pret PDestList
+  | 10 => do e <- pN;; pret (PResult e)
   | _ => pfail
   end.
 
@@ -68,6 +69,7 @@ Definition pBody : P body :=
   match x with
   | 0 => do e <- pN;; pret (BResult e)
   | 1 => do c <- pCls;; do pl <- pPayload;; pret (BCmd c pl)
+  | 2 => do pl <- pPayload;; pret (BResultWith pl)
   | _ => pfail
   end.
 
